@@ -10,6 +10,8 @@ ROOT = os.path.dirname(os.path.dirname(os.path.abspath(__file__)))
 sys.path.insert(0, ROOT)
 
 props = [json.loads(l) for l in open(os.path.join(ROOT, "properties.jsonl"))]
+# checks whose META says ready but which the coordinator has not yet seen green on HEAD (one id per line)
+HOLD = set(open(os.path.join(ROOT, "tools", "HOLD")).read().split()) if os.path.exists(os.path.join(ROOT, "tools", "HOLD")) else set()
 checks, na = [], []
 for p in props:
     pid = p["id"]
@@ -18,7 +20,7 @@ for p in props:
     if os.path.exists(path):
         mod = importlib.import_module("checks." + pid.lower())
         meta = getattr(mod, "META", None)
-    if not meta or not meta.get("ready"):
+    if not meta or not meta.get("ready") or pid in HOLD:
         na.append({"property_id": pid, "reason": "not claimed: no check has been built for this property yet (the technique applies, see DESIGN.md section 7)"})
         continue
     checks.append({
